@@ -6,7 +6,7 @@ SEEDS=${1:-"1 2 3"}
 TIER=${2:-quick}
 OUT=$(mktemp -d)
 PIDS=$(/venv/bin/python -c "import json; print(' '.join(c['property_id'] for c in json.load(open('MANIFEST.json'))['checks']))")
-harness/check.py C15 --tier quick > /dev/null 2>&1   # make sure the build is current before going parallel
+/venv/bin/python -c "import sys; sys.path.insert(0,'harness'); import common; common.build()" > /dev/null 2>&1   # whole project once, before going parallel
 for s in $SEEDS; do for p in $PIDS; do echo "$s $p"; done; done | xargs -P 14 -L 1 bash -c 'VERIF_SEED=$0 harness/check.py $1 --tier '$TIER' --no-build > '$OUT'/$1.$0.log 2>&1; echo "$1 seed=$0 rc=$?"' | sort | grep -v "rc=0" 
 grep -l "VIOLATION" $OUT/*.log 2>/dev/null | while read f; do echo "== $f"; grep -E "VIOLATION|^  \[" $f | head -5 | cut -c1-300; done
 echo "soak done: $(ls $OUT | wc -l) runs, logs in $OUT"
